@@ -356,6 +356,48 @@ func ttuOf(r *rand.Rand, nss []*namespace.Namespace) (ns, perm, rel, crel string
 	return h.ns, h.perm, h.rel, h.crel, true
 }
 
+// fanOut gives an object 2-6 parents on a traversed relation (more than the small width limits of
+// the depth/width grid) with the subject a member behind the parent that is LAST (or first) in storage
+// order: a traversal cut short by a width limit - under a negation above all - must not change the
+// decision into "allowed".
+func fanOut(r *rand.Rand, c *EngCase) {
+	ns, perm, rel, crel, ok := ttuOf(r, c.NSs)
+	if !ok {
+		return
+	}
+	const obj, base = 700, 710
+	sub := c.Query.Sub
+	pns := pick(r, c.NSs).Name
+	for _, t := range c.Tuples {
+		if t.NS == ns && t.Rel == rel && t.Sub.IsSet {
+			pns = t.Sub.NS
+			break
+		}
+	}
+	n := 2 + r.Intn(5)
+	for k := 0; k < n; k++ {
+		c.Tuples = append(c.Tuples, Tup{NS: ns, Obj: obj, Rel: rel, Sub: Sub{IsSet: true, NS: pns, Obj: base + k, Rel: ""}})
+	}
+	last := r.Intn(4) != 0
+	c.BoundaryMember = func(stored []Tup) *Tup {
+		var ps []Sub
+		for _, t := range stored {
+			if t.NS == ns && t.Obj == obj && t.Rel == rel && t.Sub.IsSet {
+				ps = append(ps, t.Sub)
+			}
+		}
+		if len(ps) == 0 {
+			return nil
+		}
+		k := 0
+		if last {
+			k = len(ps) - 1
+		}
+		return &Tup{NS: ps[k].NS, Obj: ps[k].Obj, Rel: crel, Sub: sub}
+	}
+	c.Query.NS, c.Query.Obj, c.Query.Rel = ns, obj, perm
+}
+
 // widen gives the case a very wide node, so that the internal page loops are crossed:
 // more than 1000 subject sets on the queried object#relation (the traverser fetches
 // subject sets in pages of 1000) or more than 100 parents on a traversed relation (the
@@ -470,6 +512,9 @@ func genEngCase(r *rand.Rand, p EngProfile) *EngCase {
 	c.Query = genQuery(r, c.NSs, c.Tuples)
 	c.Strict = r.Intn(3) == 0
 	defer func() {
+		if p.DepthGrid && r.Intn(3) == 0 {
+			fanOut(r, c)
+		}
 		if p.Wide {
 			if c.GDepth < 4 {
 				c.GDepth = 4 + r.Intn(4)
